@@ -465,6 +465,63 @@ def run(chk):
                      + ('' if quick else f'; at length {maxlen} the container [s] is used only for texts holding CR or LF'))
     chk.assumptions.append('alternation orders of PENMAN_RE / TRIPLE_RE are those of Impl.Lexer.PENMAN_ALTS / TRIPLE_ALTS '
                            '(any change shows up as a correspondence mismatch)')
+    indirect_stream(chk)
+
+
+def indirect_stream(chk):
+    """The lexer observed INDIRECTLY (as the property says: parse results and DecodeError positions): for a str input,
+    penman.parse / iterparse / parse_triples must see exactly the tokens of the lines split at LF, CRLF and lone CR,
+    i.e. behave as on the list of those lines, and token text inside strings/comments must be the input text."""
+    import penman
+    rng = chk.rng
+    n = 1500 if chk.tier == 'quick' else 15000
+
+    def outcome(fn, arg):
+        try:
+            r = common.timed(fn, arg, seconds=5)
+            return ('ok', r)
+        except penman.DecodeError as e:
+            return ('DecodeError', e.lineno, e.offset)
+        except Exception as e:       # noqa
+            return (type(e).__name__,)
+
+    def trees(arg):
+        out = []
+        try:
+            for t in penman.iterparse(arg):
+                out.append((repr(t.node), sorted(t.metadata.items())))
+            return out, None
+        except penman.DecodeError as e:
+            return out, (e.lineno, e.offset)
+
+    for i in range(n):
+        s = gen.random_penman_text(rng, p_bad=0.25)
+        if rng.random() < .5:
+            s = '\n'.join(gen.random_penman_text(rng, maxdepth=2, p_bad=0.1) for _ in range(rng.randint(1, 3)))
+        s = s.replace('\n', rng.choice(['\r', '\r\n', '\n', '\r', '\n\r']))
+        if rng.random() < .3:
+            s = s.replace(' ', '\t', 2)
+        if rng.random() < .3:
+            s = s.replace('(', '( "a\tb" ', 1) if rng.random() < .5 else '# ::k v\tw\r' + s
+        case = {'stream': 'indirect', 'input': s}
+        chk.count(('indirect', s))
+        lines = ref_split(s)
+        a, b = common.timed(trees, s, seconds=5), common.timed(trees, lines, seconds=5)
+        if a != b:
+            chk.fail('lineno', f'iterparse(str) {str(a)[:150]} differs from iterparse(lines split at LF/CRLF/CR) {str(b)[:150]}', case)
+        # token text is the input text: a tab inside a string or comment stays a tab
+        try:
+            toks = list(penman._lexer.lex(s))
+        except Exception:       # noqa
+            continue
+        for t in toks:
+            if t.type in ('STRING', 'COMMENT', 'SYMBOL') and t.text != t.line[t.offset:t.offset + len(t.text)]:
+                chk.fail('tiling', f'token text {t.text!r} is not the input text at its position', case)
+                break
+            if ('\t' in lines[t.lineno - 1][t.offset:t.offset + len(t.text)]) != ('\t' in t.text):
+                chk.fail('tiling', f'token {t.text!r} does not carry the characters of the span it covers', case)
+                break
+    chk.stat('indirect-texts', n)
 
 
 def replay(obj):
